@@ -709,6 +709,24 @@ impl Prop for C20 {
     /// paired round-robin with every dictionary file of <= 3 entries over keys {a, ab, b} x freqs {1, 2},
     /// each queried with {a, b, ab, ac} under both measures.
     fn exhaustive(&mut self, _tier: Tier) -> Vec<Val> {
+        let raws = exhaustive_raws();
+        raws.iter().map(|r| self.to_val(r)).collect()
+    }
+
+    /// only the shard's own cases get their oracles computed (the class sweep alone is 17 376 cases whose oracle
+    /// calls compile a regex per cluster)
+    fn exhaustive_shard(&mut self, _tier: Tier, k: usize, m: usize) -> Option<Vec<Val>> {
+        let raws = exhaustive_raws();
+        Some(raws.iter().enumerate().filter(|(i, _)| i % m == k).map(|(_, r)| self.to_val(r)).collect())
+    }
+
+    fn selfcheck(&mut self) -> Vec<String> {
+        self.selfcheck_impl()
+    }
+}
+
+fn exhaustive_raws() -> Vec<Raw> {
+    {
         let vocab = ["a", "b", "ab"];
         let mut lines: Vec<String> = vec![String::new()];
         for a in vocab {
@@ -779,7 +797,7 @@ impl Prop for C20 {
                             queries: queries.clone(),
                             probes: vec![],
                         };
-                        out.push(self.to_val(&r));
+                        out.push(r);
                         k += 1;
                     }
                 }
@@ -803,14 +821,16 @@ impl Prop for C20 {
                     queries: vec![],
                     probes,
                 };
-                out.push(self.to_val(&r));
+                out.push(r);
             }
             c += 64;
         }
         out
     }
+}
 
-    fn selfcheck(&mut self) -> Vec<String> {
+impl C20 {
+    fn selfcheck_impl(&mut self) -> Vec<String> {
         let mut errs = ws_table_selfcheck();
         // the model's tables must be the translation of the installed sources
         let md = env!("CARGO_MANIFEST_DIR");
